@@ -17,7 +17,7 @@ from ..order import Interp
 from ..algebra_lin import linear_form
 
 COL = "typhon/collocations/collocator.py"
-EXPECT = {"C04.thresholds": 3, "C04.empty": 4, "C04.temporal": 6, "C04.window": 4, "C04.nan": 7, "C04.swap": 4, "C04.offsets": 7,
+EXPECT = {"C04.thresholds": 4, "C04.empty": 4, "C04.temporal": 6, "C04.window": 4, "C04.nan": 7, "C04.swap": 4, "C04.offsets": 7,
           "C04.cache": 4, "C04.interval": 1, "C04.grid": 1}
 
 
@@ -912,8 +912,37 @@ def rule_spatial_only(ctx):
         raise AnalysisError("_prepare_data: the call of _get_common_time_period was not found")
     from ..flow import guard_chain
     from ..order import Interp
-    gc = guard_chain(enclosing_stmt(cc[0]), implicit=True)
+    gc_all = guard_chain(enclosing_stmt(cc[0]), implicit=True)
     mi_, st_, en_ = "max_interval", "start", "end"
+    # (guards on the sizes of the datasets are a separate matter, decided below)
+    def about_size(t_):
+        return any(isinstance(n_, ast.Attribute) and n_.attr == "size" for n_ in ast.walk(t_)) or any(isinstance(n_, ast.Call) and dotted(n_.func) == "len" for n_ in ast.walk(t_))
+    gc = [(t_, pol) for t_, pol in gc_all if not about_size(t_)]
+    empties = [(t_, pol) for t_, pol in gc_all if about_size(t_)]
+    # a dataset without any point: the extremes of its times do not exist (np.min of nothing raises) - it collocates with nothing
+    P_, S_ = h.params[1], h.params[2]
+    ok_empty = False
+    for t_, pol in empties:
+        tt_ok = True
+        for pe, se in itertools.product((False, True), repeat=2):
+            env_ = {}
+            for who, e_ in ((P_, pe), (S_, se)):
+                for sz in ("%s['time'].size" % who, "%s.time.size" % who, "%s.time.values.size" % who, "len(%s.time)" % who, "len(%s['time'])" % who):
+                    env_[sz] = 0 if e_ else 2
+                    env_["not %s" % sz] = e_
+                    env_["%s == 0" % sz] = e_
+            try:
+                v_ = bool(Interp(env_).ev(t_))
+            except AnalysisError as e2_:
+                raise AnalysisError("_prepare_data: size guard %s outside the model: %s" % (norm(t_)[:60], e2_))
+            # the call is reached iff the guard evaluates to `pol`: it must not be reached when either dataset is empty
+            if (v_ == pol) != (not (pe or se)):
+                tt_ok = False
+        ok_empty = ok_empty or tt_ok
+    ctx.ob("Collocator._prepare_data.empty", ok_empty, "size guards in front of the period selection: %s" % ([("%s" if pol else "not (%s)") % norm(t_) for t_, pol in empties] or "none"),
+           "a dataset without any point returns (None, None) before the extremes of its times are taken: an empty file made the worker of collocate_filesets raise "
+           "(ValueError: zero-size array to reduction operation minimum) and the collocations of the files queued behind it were lost", node=cc[0], func=h,
+           witness=None if ok_empty else {"files": "hourly, one of them without points", "processes": 1, "reported": "2 of 6 pairs"})
     A, B, C_ = "%s is not None" % mi_, "%s > datetime.min" % st_, "%s < datetime.max" % en_
     wrong = None
     for a, b, c3 in itertools.product((False, True), repeat=3):
